@@ -16,7 +16,7 @@ and guards are predicates over fields decided per instance shape.  Supported sta
 assign, augmented +=, if/else, for-over-field, return, assert (ignored), f-strings, sep.join(genexp),
 "-" * self.level, inlined zero-argument self methods.  Anything else => AnalysisError (exit 2)."""
 import ast
-from .core import AnalysisError, U
+from .core import AnalysisError, U, is_noop_stmt
 
 
 class Fork(Exception):
@@ -120,7 +120,7 @@ class PrinterExtractor:
                 if isinstance(f, ast.Name) and f.id in ex.mod.functions and not e.keywords:
                     # module-level helper with a single return expression: inline it with the arguments substituted
                     h = ex.mod.functions[f.id]
-                    hb = [s for s in h.body if not (isinstance(s, ast.Expr) and isinstance(s.value, ast.Constant)) and not isinstance(s, ast.Pass)]
+                    hb = [s for s in h.body if not is_noop_stmt(s)]
                     hp = [a.arg for a in h.args.args]
                     if len(hb) == 1 and isinstance(hb[0], ast.Return) and len(hp) == len(e.args):
                         import copy as _copy
@@ -246,9 +246,7 @@ class PrinterExtractor:
 
         def block(stmts):
             for s in stmts:
-                if isinstance(s, ast.Expr) and isinstance(s.value, ast.Constant):
-                    continue
-                if isinstance(s, (ast.Assert, ast.Pass)):
+                if is_noop_stmt(s) or isinstance(s, ast.Assert):
                     continue
                 if isinstance(s, ast.Assign) and len(s.targets) == 1 and isinstance(s.targets[0], ast.Name):
                     env[s.targets[0].id] = sval(s.value)
